@@ -33,6 +33,7 @@ import mpmath as mp
 
 from mc.oracle import jets, scale as sc
 
+EPS = 2.0 ** -52
 FUNS = ('exp', 'sin', 'cosh', 'arctan', 'square', 'rat')      # rat(t) = 1 / (2 + t^2)
 X = ('x',)
 POINT_KINDS = ('ramp', 'big', 'tiny', 'mixed')
@@ -134,7 +135,7 @@ def ridge_entry(i, l, m, n, variant):
     for j in range(n):
         sa = -1.0 if (i + 2 * j + l + variant) % 3 == 0 else 1.0
         sb = -1.0 if (i + j + l) % 2 else 1.0
-        a.append(sa * ((1 + (3 * i + 5 * j + 7 * l + variant) % 5) / 8.0 + tag))
+        a.append(sa * ((1 + (3 * i + 2 * j + 7 * l + variant) % 5) / 8.0 + tag))
         b.append(sb * (1 + (2 * i + 3 * j + 5 * l + 2 * variant + 1) % 5) / 8.0)
     return ('ridge', g, h, a, b)
 
@@ -235,7 +236,8 @@ class Restriction(object):
     R_an      analyticity radius of the restriction (majorant ladder of mc.oracle.scale)
     noise     evaluation-noise magnitude: |value| + sum_children |d value/d child| noise(child), where the
               inner products a.x are charged sum_j |a_j x_j| (what a floating-point dot product and the
-              rounding of x_j + h can perturb), not |a.x|
+              rounding of x_j + h can perturb), not |a.x|; plus the second-order terms eps N^2 that take
+              over where a factor and its slope vanish together (t^2 at 0, or g = h = 0)
     S, rho    S_1 = max(noise, max_k |a_k| rho^k) / rho with rho = min(step_nom, R_an/2)
     resolved  the Taylor majorant has decayed (otherwise no accuracy claim is made)
     """
@@ -266,8 +268,15 @@ def restriction(e, x, u, step_nom):
         value = g0 * h0
         prog = ('b', '*', prog_apply(g, ('b', '+', ('c', c), ('s', alpha, X))),
                 prog_apply(h, ('b', '+', ('c', d), ('s', beta, X))))
-        extra = (float(abs(g1 * h0)) * max(_absdot(a, x) - float(abs(c)), 0.0)
-                 + float(abs(g0 * h1)) * max(_absdot(b, x) - float(abs(d)), 0.0))
+        na, nb = _absdot(a, x), _absdot(b, x)
+        ag0, ag1, ah0, ah1 = (float(abs(t)) for t in (g0, g1, h0, h1))
+        extra = ag1 * ah0 * max(na - float(abs(c)), 0.0) + ag0 * ah1 * max(nb - float(abs(d)), 0.0)
+        # second-order terms: where value and slope of a factor vanish together (square at 0, or both
+        # factors zero) the first-order running-error bound is 0 although the float evaluation is not
+        ng = ag0 + ag1 * na + (EPS * na * na if g == 'square' else 0.0)
+        nh = ah0 + ah1 * nb + (EPS * nb * nb if h == 'square' else 0.0)
+        extra += EPS * ((ah0 * na * na if g == 'square' else 0.0) + (ag0 * nb * nb if h == 'square' else 0.0)
+                        + ng * nh)
         noise_abs = None
     an = sc.analyse(prog, 0.0, ladder_top=32.0 * step_nom)
     # the two independent derivations of the derivative must agree
